@@ -17,6 +17,36 @@ def monitor(sn, faulty):
 
 
 def tweak(rng, sc):
+    """now and then: a partition expressed in ORDINALS that lies beyond spec.replicas (possible with delete slots inside the
+    range, e.g. replicas 3, slots [1], pods 0 2 3, partition 4 = hold everything), healthy outdated pods below it"""
+    import copy, json
+    from props.c01 import first_free
+    st = sc["cache"].get("set")
+    if st is None or rng.random() > 0.15 or len(sc["api"]["revs"]) < 2:
+        return sc
+    reps = rng.choice([2, 3, 4])
+    nslots = rng.choice([1, 1, 2])
+    slots = sorted(rng.sample(range(0, reps + nslots - 1), nslots))
+    desired = first_free(reps, set(slots))
+    part = rng.choice([reps + 1, max(desired), max(desired) + 1, reps + 1])
+    revs = sc["api"]["revs"]
+    old, new = revs[-2]["name"], revs[-1]["name"]
+    claims = st.get("claims") or []
+    pods = []
+    for o in desired:
+        rv = new if (o >= part and rng.random() < 0.8) else old
+        pods.append(rc.mkpod(o, rv, claims=claims))
+    for w in (sc["api"], sc["cache"]):
+        s2 = w.get("set")
+        if not s2:
+            return sc
+        s2.update(replicas=reps, strategy="RollingUpdate", rolling={"partition": part}, deleting=False)
+        ann = dict(s2.get("ann") or {})
+        ann.pop("paused-reconcile", None)
+        ann["delete-slots"] = json.dumps(slots)
+        s2["ann"] = ann
+        s2["status"].update(currentRevision=old, updateRevision=new)
+        w["pods"] = copy.deepcopy(pods)
     return sc
 
 
